@@ -63,8 +63,7 @@ def process(
         for job in p.glob("jobs/*/*"):
             job_path = job.resolve()
             if job_path.is_dir():
-                *_, scriptname = job_path.parent.name.rsplit(".", 1)
-                job2xp.setdefault(scriptname, set()).add(p.name)
+                job2xp.setdefault(job_path, set()).add(p.name)
 
         if (p / "jobs.bak").is_dir():
             cprint(f"  Experiment {p.name} has not finished yet", "red")
@@ -79,7 +78,7 @@ def process(
         p = job.resolve()
         if p.is_dir():
             *_, scriptname = p.parent.name.rsplit(".", 1)
-            xps = job2xp.get(scriptname, set())
+            xps = job2xp.get(p, set())
             if experiment and experiment not in xps:
                 continue
 
